@@ -103,6 +103,78 @@ func (p *Prog) privateHelpers(fn *Func) []*Func {
 	return out
 }
 
+// baselineFields: the struct fields of the module when the rule tables were written
+// ("pkg.Type.Field<TAB>type"). A field that a rule names and that no longer exists is looked
+// for under a new name: the struct has exactly one field that is not in the baseline list and
+// has the baseline field's type. fieldKey then reports the baseline name, so a pure field
+// rename does not unhinge the rules. Regenerate with `bin/mscheck -dumpfields`.
+//
+//go:embed baseline_fields.txt
+var baselineFieldsText string
+
+var fieldAlias = map[string]string{}
+
+func (p *Prog) computeFieldAliases() {
+	fieldAlias = map[string]string{}
+	type bf struct{ name, typ string }
+	base := map[string][]bf{} // struct key → fields
+	for _, l := range strings.Split(baselineFieldsText, "\n") {
+		parts := strings.SplitN(strings.TrimSpace(l), "\t", 2)
+		if len(parts) != 2 {
+			continue
+		}
+		i := strings.LastIndex(parts[0], ".")
+		if i < 0 {
+			continue
+		}
+		base[parts[0][:i]] = append(base[parts[0][:i]], bf{parts[0][i+1:], parts[1]})
+	}
+	for _, pkg := range p.Pkgs {
+		if strings.HasSuffix(pkg.Name, "_test") {
+			continue
+		}
+		sc := pkg.Types.Scope()
+		for _, n := range sc.Names() {
+			tn, ok := sc.Lookup(n).(*types.TypeName)
+			if !ok {
+				continue
+			}
+			st, ok := tn.Type().Underlying().(*types.Struct)
+			if !ok {
+				continue
+			}
+			sk := short(pkg.PkgPath) + "." + n
+			bfs := base[sk]
+			if len(bfs) == 0 {
+				continue
+			}
+			baseNames := map[string]bool{}
+			for _, f := range bfs {
+				baseNames[f.name] = true
+			}
+			cur := map[string]string{}
+			for i := 0; i < st.NumFields(); i++ {
+				cur[st.Field(i).Name()] = short(types.TypeString(st.Field(i).Type(), nil))
+			}
+			for _, f := range bfs {
+				if _, still := cur[f.name]; still {
+					continue
+				}
+				var cands []string
+				for nm, ty := range cur {
+					if !baseNames[nm] && ty == f.typ {
+						cands = append(cands, nm)
+					}
+				}
+				if len(cands) == 1 {
+					fieldAlias[sk+"."+cands[0]] = sk + "." + f.name
+					p.RoleNotes = append(p.RoleNotes, "field "+sk+"."+f.name+" not found; resolved by type to the new field "+cands[0])
+				}
+			}
+		}
+	}
+}
+
 // objAlias: value identity across an extracted helper's boundary. For a function that did not
 // exist at baseline and has exactly ONE static call site in the module, a parameter whose
 // argument is a plain identifier denotes the caller's variable, and a caller variable that
